@@ -92,11 +92,30 @@ def run(chk):
         s = 2.0 ** int(rng.integers(0, 4))
         t = gen.dy(rng.uniform(-5, 5, 3), 4)
         Vp = V @ M.T * s + t
+        tl_own = None
+        if kind == "extrusion" and len(cases) % 4 < 2:
+            # the same prism with its two caps given as single (generally NON-CONVEX) polygonal faces, each listed from a random starting
+            # vertex: the solid is the same, so membership is judged against the triangles of the harness' own ear clipping
+            n_ = len(info["poly"])
+            tl_own = [[f[0], f[m_], f[m_ + 1]] for f in F for m_ in range(1, len(f) - 1)]
+            k1, k2 = int(rng.integers(n_)), int(rng.integers(n_))
+            bot, top = list(range(n_))[::-1], [i_ + n_ for i_ in range(n_)]
+            F = [bot[k1:] + bot[:k1], top[k2:] + top[:k2]] + [list(f) for f in F if len(f) == 4]
+            kind = "extrusion/polygonal-caps"
         p = coxeter.shapes.Polyhedron(Vp, [np.array(f) for f in F])
         vmap = {tuple(v): i for i, v in enumerate(p.vertices)}
-        st, tl = C.excname(lambda: [[vmap[tuple(v)] for v in tri] for tri in p._surface_triangulation()])
-        if st != "ok":
-            chk.count("skipped:triangulation-raised(known polytri thresholds, judged in C02/C09)")
+        if tl_own is not None:
+            st, tl = "ok", tl_own
+        else:
+            st, tl = C.excname(lambda: [[vmap[tuple(v)] for v in tri] for tri in p._surface_triangulation()])
+        if st != "ok" or (tl_own is not None and C.excname(lambda: p.is_inside(Vp.mean(0)))[0] == "ValueError"):
+            # recorded finding polytri-absolute-thresholds: the vendored triangulation rejects valid small-faced meshes by absolute
+            # thresholds - the same mesh scaled up by 2^24 (exact) is then accepted.  Anything else is a refusal of a valid solid.
+            big = C.excname(lambda: coxeter.shapes.Polyhedron(Vp * 2.0 ** 24, [np.array(f) for f in F]).is_inside(Vp.mean(0) * 2.0 ** 24))[0]
+            if big == "ok" and chk.is_known("polytri-absolute-thresholds"):
+                chk.count("skipped:triangulation-raised(known polytri thresholds, judged in C02/C09)")
+            else:
+                chk.violation("is_inside-raised", dict(kind=kind, vertices=Vp.tolist(), faces=[list(map(int, f)) for f in F], error="triangulation of a valid solid refused (at any scale)"))
             continue
         pts = query_points(rng, Vp, tl, npts)
         st, got = C.excname(lambda: np.asarray(p.is_inside(pts), bool))
